@@ -155,7 +155,8 @@ PROPS = {
                  "NATS / Go channel FIFO order between the harness-owned channel and partition.messageProcessingLoop (site labels of the directly driven runs)"],
     ),
     "C13": dict(
-        lean_modules=["Liftbridge.Props.C13"],
+        # Props.GoGroupSub: the model's subscribe step / clean-up = the translated bodies of partition.Subscribe / removeGroupSubscriber
+        lean_modules=["Liftbridge.Props.C13", "Liftbridge.Props.GoGroupSub"],
         gen_sources=["server/partition.go:partition.Subscribe", "server/partition.go:partition.newSubscribeLoop",
                      "server/partition.go:partition.removeGroupSubscriber"],
         runs=[dict(go_pkg="./server", test="TestVerifC13"), dict(go_pkg="./server", test="TestVerifC13Shapes")],
